@@ -350,6 +350,9 @@ def closed_forms(repo, rep):
 
 
 def run(repo, rep, tier):
+    rep.rule("R-C01-7", "every parameter of the functions behind this property is read (statistics): none is accepted and then ignored")
+    from .shared import unused_parameters
+    unused_parameters(repo, rep, "R-C01-7", ("wavespectra.specarray", "wavespectra.core.npstats", "wavespectra.core.xrstats", "wavespectra.core.utils"), "statistics")
     rep.rule("R-C01-1", "the inferred units of every integrated statistic equal its CF units in attributes.yml (helpers: definitions)")
     rep.rule("R-C01-2", "every statistic leaves exactly the spectral dimensions its definition says (reductions over the right named dims)")
     rep.rule("R-C01-3", "one integration path for 1-D and 2-D spectra: oned(), or a ValueError guard before direction is used")
